@@ -9,6 +9,7 @@ import InTotoModel.Driver.RulesProto
 import InTotoModel.Driver.VerifyProto
 import InTotoModel.Generated.StrRequests
 import InTotoModel.Model.Attest
+import InTotoModel.Model.Wire
 /-
   Executable model driver: one operation per input line, one canonical answer per line.
   Unknown or malformed operations answer `bad-op` (never a default).
@@ -98,6 +99,26 @@ def step (line : String) : String :=
       if RulesSpec.Normalized item links then toString (RulesSpec.verdict item links) else "na"
     | none => "bad-op"
   | "verify" :: toks => runVerify toks
+  | "rule_dec" :: toks =>
+    match readJV toks with
+    | some (v, []) =>
+      match Wire.ruleOfJson v with
+      | some r => "ok " ++ String.intercalate " " ((Wire.ruleTokens r).map hexOfStr)
+      | none => "reject"
+    | _ => "bad-op"
+  | "bp_dec" :: toks =>
+    match readJV toks with
+    | some (v, []) =>
+      match Wire.byProductsOfJson v with
+      | some b =>
+        let o (x : Option Str) := match x with | some s => "s" ++ hexOfStr s | none => "~"
+        let rv := match b.returnValue with | some i => toString i | none => "~"
+        -- the extra-field map is a BTreeMap: print sorted by key
+        let other := (b.other.toArray.qsort (fun a b => strLt a.1 b.1)).toList
+        s!"ok {rv} {o b.stderr} {o b.stdout}" ++
+          (if other.isEmpty then "" else " " ++ String.intercalate "," (other.map fun p => hexOfStr p.1 ++ "=" ++ hexOfStr p.2))
+      | none => "reject"
+    | _ => "bad-op"
   | "pred_fmt" :: _ :: keys =>
     match keys.mapM strOfHex with
     | some ks =>
